@@ -56,28 +56,28 @@ Proof.
   destruct HI as (_ & _ & H3). apply H3. exact Ex.
 Qed.
 
-Lemma adjust_apply_keeps m a : forall x x', adjust_apply m a x = Ok x' ->
+Lemma adjust_apply_keeps a : forall x x', Ok (adjust_apply a x) = Ok x' ->
   i_id x' = i_id x /\ forall n k, place_wf n k (i_place x) -> place_wf n k (i_place x').
-Proof. intros x x' H. destruct (adjust_apply_preserves m a x x' H) as (H1 & _ & _ & _ & H5). split; assumption. Qed.
+Proof. intros x x' H. inversion H; subst. destruct (adjust_apply_preserves a x) as (H1 & _ & _ & _ & H5). split; assumption. Qed.
 
-Lemma singlepos_keeps m subs : forall x x', singlepos m subs x = Ok x' ->
+Lemma singlepos_keeps subs : forall x x', singlepos subs x = Ok x' ->
   i_id x' = i_id x /\ forall n k, place_wf n k (i_place x) -> place_wf n k (i_place x').
 Proof.
   intros x x' H. unfold singlepos in H.
   destruct (first_sub _ subs) as [[adj|]| | |]; cbn [bind] in H; try discriminate.
-  - apply (adjust_apply_keeps m adj); exact H.
+  - apply (adjust_apply_keeps adj); exact H.
   - inversion H; subst. split; [reflexivity|tauto].
 Qed.
 
-Lemma pairpos_inv m subs l0 l i1 i2 l' : Inv l0 l -> pairpos m subs i1 i2 l = Ok l' -> Inv l0 l'.
+Lemma pairpos_inv subs l0 l i1 i2 l' : Inv l0 l -> pairpos subs i1 i2 l = Ok l' -> Inv l0 l'.
 Proof.
   intros HI H. unfold pairpos in H.
   destruct (iget l i1) as [x1| | |]; cbn [bind] in H; try discriminate.
   destruct (iget l i2) as [x2| | |]; cbn [bind] in H; try discriminate.
   destruct (first_sub _ subs) as [[[a1 a2]|]| | |]; cbn [bind] in H; try discriminate; [|inversion H; subst; exact HI].
-  assert (H1 : forall l1, (match a1 with Some a => update_at (adjust_apply m a) l i1 | None => Ok l end) = Ok l1 -> Inv l0 l1).
+  assert (H1 : forall l1, (match a1 with Some a => update_at (fun x => Ok (adjust_apply a x)) l i1 | None => Ok l end) = Ok l1 -> Inv l0 l1).
   { intros l1 E. destruct a1 as [a|]; [|inversion E; subst; exact HI]. eapply update_at_inv; [apply adjust_apply_keeps|exact HI|exact E]. }
-  destruct (match a1 with Some a => update_at (adjust_apply m a) l i1 | None => Ok l end) as [l1| | |]; cbn [bind] in H; try discriminate.
+  destruct (match a1 with Some a => update_at (fun x => Ok (adjust_apply a x)) l i1 | None => Ok l end) as [l1| | |]; cbn [bind] in H; try discriminate.
   specialize (H1 l1 eq_refl). destruct a2 as [a|]; [|inversion H; subst; exact H1].
   eapply update_at_inv; [apply adjust_apply_keeps|exact H1|exact H].
 Qed.
@@ -211,8 +211,8 @@ Proof. intros Hi H. destruct (find_prev_some mt gd ids0 i p Hi H) as (Hp & _). e
 Lemma len_iids l : len (iids l) = len l.
 Proof. unfold iids, len. rewrite map_length. reflexivity. Qed.
 
-Lemma apply_pos_inv m lookups gd pi li l0 l index l' :
-  Inv l0 l -> 0 <= index < len l -> apply_pos m lookups gd pi li l index = Ok l' -> Inv l0 l'.
+Lemma apply_pos_inv lookups gd pi li l0 l index l' :
+  Inv l0 l -> 0 <= index < len l -> apply_pos lookups gd pi li l index = Ok l' -> Inv l0 l'.
 Proof.
   intros HI Hidx H. unfold apply_pos in H.
   destruct (get_plookup lookups li) as [lk| | |]; cbn [bind] in H; try discriminate.
@@ -235,15 +235,15 @@ Proof.
   - inversion H; subst; exact HI.
 Qed.
 
-Lemma apply_pos_context_inv m lookups gd l0 : forall recs i l l',
-  Inv l0 l -> 0 <= i < len l0 -> apply_pos_context m lookups gd recs i l = Ok l' -> Inv l0 l'.
+Lemma apply_pos_context_inv lookups gd l0 : forall recs i l l',
+  Inv l0 l -> 0 <= i < len l0 -> apply_pos_context lookups gd recs i l = Ok l' -> Inv l0 l'.
 Proof.
   induction recs as [|[pi li] recs IH]; intros i l l' HI Hi H; cbn [apply_pos_context] in H; [inversion H; subst; exact HI|].
-  destruct (apply_pos m lookups gd pi li l i) as [l1| | |] eqn:E; cbn [bind] in H; try discriminate.
+  destruct (apply_pos lookups gd pi li l i) as [l1| | |] eqn:E; cbn [bind] in H; try discriminate.
   apply (IH i l1 l'); [|exact Hi|exact H]. eapply apply_pos_inv; [exact HI| |exact E]. destruct HI as (Hl & _). lia.
 Qed.
 
-Lemma contextpos_inv m lookups gd mt subs l0 i l l' : Inv l0 l -> contextpos m lookups gd mt subs i l = Ok l' -> Inv l0 l'.
+Lemma contextpos_inv lookups gd mt subs l0 i l l' : Inv l0 l -> contextpos lookups gd mt subs i l = Ok l' -> Inv l0 l'.
 Proof.
   intros HI H. unfold contextpos in H.
   destruct (iget l i) as [x| | |] eqn:Ex; cbn [bind] in H; try discriminate. apply iget_ok in Ex.
@@ -251,7 +251,7 @@ Proof.
   eapply apply_pos_context_inv; [exact HI| |exact H]. pose proof (nth_opt_range _ _ _ Ex). destruct HI as (Hl & _). lia.
 Qed.
 
-Lemma chaincontextpos_inv m lookups gd mt subs l0 i l l' : Inv l0 l -> chaincontextpos m lookups gd mt subs i l = Ok l' -> Inv l0 l'.
+Lemma chaincontextpos_inv lookups gd mt subs l0 i l l' : Inv l0 l -> chaincontextpos lookups gd mt subs i l = Ok l' -> Inv l0 l'.
 Proof.
   intros HI H. unfold chaincontextpos in H.
   destruct (iget l i) as [x| | |] eqn:Ex; cbn [bind] in H; try discriminate. apply iget_ok in Ex.
@@ -260,10 +260,10 @@ Proof.
 Qed.
 
 (* ------------------------------------------------------------------ lookups, features, gpos::apply *)
-Theorem gpos_apply_lookup_inv : forall m lookups gd li l0 l l',
-  Inv l0 l -> gpos_apply_lookup m lookups gd li l = Ok l' -> Inv l0 l'.
+Theorem gpos_apply_lookup_inv : forall lookups gd li l0 l l',
+  Inv l0 l -> gpos_apply_lookup lookups gd li l = Ok l' -> Inv l0 l'.
 Proof.
-  intros m lookups gd li l0 l l' HI H. unfold gpos_apply_lookup in H.
+  intros lookups gd li l0 l l' HI H. unfold gpos_apply_lookup in H.
   destruct lookups as [lks|]; [|inversion H; subst; exact HI].
   destruct (get_plookup lks li) as [lk| | |]; cbn [bind] in H; try discriminate.
   destruct (pl_body lk) as [subs|subs|subs|subs|subs|subs|subs|subs].
@@ -280,16 +280,15 @@ Proof.
   - eapply forall_glyphs_match_inv; [|exact HI|exact H]. intros i a b Ha Hb. eapply chaincontextpos_inv; eassumption.
 Qed.
 
-Lemma apply_kern_inv m subs l0 : forall l l', Inv l0 l -> apply_kern m subs l = Ok l' -> Inv l0 l'.
+Lemma apply_kern_inv subs l0 : forall l l', Inv l0 l -> apply_kern subs l = Ok l' -> Inv l0 l'.
 Proof.
   intros l l' HI H.
-  assert (G : forall l l', apply_kern m subs l = Ok l' ->
+  assert (G : forall l l', apply_kern subs l = Ok l' ->
               len l' = len l /\ iids l' = iids l /\ map i_place l' = map i_place l).
   { clear. induction l as [|x l IH]; intros l' H; [inversion H; subst; repeat split; reflexivity|].
     destruct l as [|y t]; [inversion H; subst; repeat split; reflexivity|].
     rewrite apply_kern_cons in H.
-    destruct (kern_pair m subs (i_id x) (i_id y) 0); cbn [bind] in H; try discriminate.
-    destruct (apply_kern m subs (y :: t)) as [t'| | |] eqn:Et; cbn [bind] in H; try discriminate.
+    destruct (apply_kern subs (y :: t)) as [t'| | |] eqn:Et; cbn [bind] in H; try discriminate.
     inversion H; subst. destruct (IH t' eq_refl) as (A & B & C).
     rewrite !len_cons in *. unfold iids in *. cbn [map] in *. cbn [i_id i_place set_kern]. repeat split; [lia|congruence|congruence]. }
   destruct (G l l' H) as (A & B & C). destruct HI as (H1 & H2 & H3).
@@ -300,14 +299,14 @@ Proof.
   apply H3. exact Ey.
 Qed.
 
-Lemma apply_lookup_list_inv m t gd l0 : forall idx l l', Inv l0 l -> apply_lookup_list m t gd idx l = Ok l' -> Inv l0 l'.
+Lemma apply_lookup_list_inv t gd l0 : forall idx l l', Inv l0 l -> apply_lookup_list t gd idx l = Ok l' -> Inv l0 l'.
 Proof.
   induction idx as [|li idx IH]; intros l l' HI H; cbn [apply_lookup_list] in H; [inversion H; subst; exact HI|].
-  destruct (gpos_apply_lookup m (pt_lookups t) gd li l) as [l1| | |] eqn:E; cbn [bind] in H; try discriminate.
+  destruct (gpos_apply_lookup (pt_lookups t) gd li l) as [l1| | |] eqn:E; cbn [bind] in H; try discriminate.
   apply (IH l1 l'); [eapply gpos_apply_lookup_inv; eassumption|exact H].
 Qed.
 
-Lemma apply_features_inv m t gd kern ls l0 : forall feats l l', Inv l0 l -> apply_features m t gd kern ls feats l = Ok l' -> Inv l0 l'.
+Lemma apply_features_inv t gd kern ls l0 : forall feats l l', Inv l0 l -> apply_features t gd kern ls feats l = Ok l' -> Inv l0 l'.
 Proof.
   induction feats as [|tag feats IH]; intros l l' HI H; cbn [apply_features] in H; [inversion H; subst; exact HI|].
   destruct (pfind_langsys_feature t ls tag) as [ft| | |]; cbn [bind] in H; try discriminate.
@@ -327,16 +326,16 @@ Proof.
 Qed.
 
 (* gpos::apply on freshly initialised Infos: the attachment indices are in range and point the right way *)
-Theorem attachment_indices_in_range : forall m t gd kern kerning custom script lang l l',
-  wf l -> gpos_apply m t gd kern kerning custom script lang l = Ok l' ->
+Theorem attachment_indices_in_range : forall t gd kern kerning custom script lang l l',
+  wf l -> gpos_apply t gd kern kerning custom script lang l = Ok l' ->
   len l' = len l /\ iids l' = iids l /\ wf l'.
 Proof.
-  intros m t gd kern kerning custom script lang l l' Hw H.
+  intros t gd kern kerning custom script lang l l' Hw H.
   assert (HI : Inv l l) by (split; [reflexivity|split; [reflexivity|exact Hw]]).
   unfold gpos_apply in H.
   destruct (pfind_script_or_default t script) as [s|]; [|inversion H; subst; exact HI].
   destruct (pfind_langsys_or_default s lang) as [ls|]; [|inversion H; subst; exact HI].
-  destruct (apply_features m t gd kern ls (base_features_default kerning) l) as [l1| | |] eqn:E; cbn [bind] in H; try discriminate.
+  destruct (apply_features t gd kern ls (base_features_default kerning) l) as [l1| | |] eqn:E; cbn [bind] in H; try discriminate.
   eapply apply_features_inv; [|exact H]. eapply apply_features_inv; eassumption.
 Qed.
 
@@ -348,16 +347,16 @@ Proof.
   rewrite H. cbn [bind]. rewrite iset_mid. reflexivity.
 Qed.
 
-Lemma forall_glyphs_match_single m mt gd subs : forall todo done,
-  forall_glyphs_match (length todo) mt gd (fun i l => update_at (singlepos m subs) l i) (done ++ todo) (len done) =
-  (t' <- map_out (singlepos_spec m mt gd subs) todo ;; Ok (done ++ t')).
+Lemma forall_glyphs_match_single mt gd subs : forall todo done,
+  forall_glyphs_match (length todo) mt gd (fun i l => update_at (singlepos subs) l i) (done ++ todo) (len done) =
+  (t' <- map_out (singlepos_spec mt gd subs) todo ;; Ok (done ++ t')).
 Proof.
   induction todo as [|x todo IH]; intros done; cbn [forall_glyphs_match map_out length]; [cbn [bind]; rewrite !app_nil_r; reflexivity|].
   pose proof (len_nonneg done). unfold iget. rewrite nth_opt_app_r by lia. replace (len done - len done) with 0 by lia.
   cbn [nth_opt Z.ltb Z.compare Z.to_nat nth_error bind]. unfold singlepos_spec at 1.
   assert (Hd : len (done ++ [x]) = len done + 1) by (rewrite len_app; unfold len; cbn [length]; lia).
   destruct (match_glyph mt gd (i_id x)).
-  - destruct (singlepos m subs x) as [x'| | |] eqn:Es; cbn [bind].
+  - destruct (singlepos subs x) as [x'| | |] eqn:Es; cbn [bind].
     + rewrite (update_at_mid _ done x todo x' Es). cbn [bind].
       replace (done ++ x' :: todo) with ((done ++ [x']) ++ todo) by (rewrite <- app_assoc; reflexivity).
       replace (len done + 1) with (len (done ++ [x'])) by (rewrite len_app; unfold len; cbn [length]; lia).
@@ -374,13 +373,13 @@ Proof.
 Qed.
 
 (* lookup type 1 over the run: pointwise, skipped glyphs untouched *)
-Theorem singlepos_lookup_spec : forall m lks gd li l lk subs,
+Theorem singlepos_lookup_spec : forall lks gd li l lk subs,
   get_plookup lks li = Ok lk -> pl_body lk = LSinglePos subs ->
-  gpos_apply_lookup m (Some lks) gd li l =
-  map_out (singlepos_spec m (from_lookup_flag (pl_flag lk) (pl_mfs lk)) gd subs) l.
+  gpos_apply_lookup (Some lks) gd li l =
+  map_out (singlepos_spec (from_lookup_flag (pl_flag lk) (pl_mfs lk)) gd subs) l.
 Proof.
-  intros m lks gd li l lk subs Hlk Hb. unfold gpos_apply_lookup. rewrite Hlk. cbn [bind]. rewrite Hb.
-  pose proof (forall_glyphs_match_single m (from_lookup_flag (pl_flag lk) (pl_mfs lk)) gd subs l []) as H.
+  intros lks gd li l lk subs Hlk Hb. unfold gpos_apply_lookup. rewrite Hlk. cbn [bind]. rewrite Hb.
+  pose proof (forall_glyphs_match_single (from_lookup_flag (pl_flag lk) (pl_mfs lk)) gd subs l []) as H.
   cbn [app] in H. rewrite len_nil in H. rewrite H. destruct (map_out _ l); reflexivity.
 Qed.
 
@@ -432,28 +431,28 @@ Proof.
   destruct (iset_spec l i x' x Ex) as (_ & _ & _ & L4). apply L4. eapply Hf; eassumption.
 Qed.
 
-Lemma pairpos_iids m subs i1 i2 l l' : pairpos m subs i1 i2 l = Ok l' -> iids l' = iids l.
+Lemma pairpos_iids subs i1 i2 l l' : pairpos subs i1 i2 l = Ok l' -> iids l' = iids l.
 Proof.
   intros H. unfold pairpos in H.
   destruct (iget l i1) as [x1| | |]; cbn [bind] in H; try discriminate.
   destruct (iget l i2) as [x2| | |]; cbn [bind] in H; try discriminate.
   destruct (first_sub _ subs) as [[[a1 a2]|]| | |]; cbn [bind] in H; try discriminate; [|inversion H; reflexivity].
-  assert (K : forall a x x', adjust_apply m a x = Ok x' -> i_id x' = i_id x) by (intros a x x' E; apply (adjust_apply_keeps m a x x' E)).
-  assert (H1 : forall l1, (match a1 with Some a => update_at (adjust_apply m a) l i1 | None => Ok l end) = Ok l1 -> iids l1 = iids l).
+  assert (K : forall a x x', Ok (adjust_apply a x) = Ok x' -> i_id x' = i_id x) by (intros a x x' E; apply (adjust_apply_keeps a x x' E)).
+  assert (H1 : forall l1, (match a1 with Some a => update_at (fun x => Ok (adjust_apply a x)) l i1 | None => Ok l end) = Ok l1 -> iids l1 = iids l).
   { intros l1 E. destruct a1 as [a|]; [|inversion E; reflexivity]. eapply update_at_iids; [apply K|exact E]. }
-  destruct (match a1 with Some a => update_at (adjust_apply m a) l i1 | None => Ok l end) as [l1| | |]; cbn [bind] in H; try discriminate.
+  destruct (match a1 with Some a => update_at (fun x => Ok (adjust_apply a x)) l i1 | None => Ok l end) as [l1| | |]; cbn [bind] in H; try discriminate.
   rewrite <- (H1 l1 eq_refl). destruct a2 as [a|]; [|inversion H; reflexivity].
   eapply update_at_iids; [apply K|exact H].
 Qed.
 
 (* lookup type 2 over the run: pairpos on every pair of consecutive unskipped glyphs, left to right *)
-Theorem pairpos_lookup_spec : forall m lks gd li l lk subs,
+Theorem pairpos_lookup_spec : forall lks gd li l lk subs,
   get_plookup lks li = Ok lk -> pl_body lk = LPairPos subs ->
-  gpos_apply_lookup m (Some lks) gd li l =
-  fold_pairs (fun i1 i2 l => pairpos m subs i1 i2 l)
+  gpos_apply_lookup (Some lks) gd li l =
+  fold_pairs (fun i1 i2 l => pairpos subs i1 i2 l)
              (adjacent (unskipped_positions (from_lookup_flag (pl_flag lk) (pl_mfs lk)) gd (iids l) 0)) l.
 Proof.
-  intros m lks gd li l lk subs Hlk Hb. unfold gpos_apply_lookup. rewrite Hlk. cbn [bind]. rewrite Hb.
+  intros lks gd li l lk subs Hlk Hb. unfold gpos_apply_lookup. rewrite Hlk. cbn [bind]. rewrite Hb.
   set (mt := from_lookup_flag (pl_flag lk) (pl_mfs lk)). unfold forall_glyph_pairs_match, find_first.
   rewrite find_first_from_unskipped.
   destruct (unskipped_positions mt gd (iids l) 0) as [|p rest] eqn:Eu; [reflexivity|].
